@@ -96,7 +96,7 @@ SHARED = {'E': ('r', True, dict(status=403, headers=[('X-S', 's')], cookies=[]),
           'R': ('r', False, dict(status=200, headers=[('X-S', 'r')], cookies=[('sc', '1')]), ('t', 'shared body'))}
 
 
-RAISE_SINGLETONS = [False]
+RAISE_SINGLETONS = [True]
 
 
 def plain_spec():
@@ -112,14 +112,16 @@ def multipart_body(boundary, parts):
     out.append(('--' + boundary + '--\r\n').encode('ascii'))
     return b''.join(out)
 
-# body-error kinds: (pre, request body, extra environ, class raised through BaseRequest._raise)
+# body-error kinds: (pre, request body, extra environ, class raised through BaseRequest._raise; a trailing
+# '+' = raised while a ValueError with a live traceback is being handled, which the shared error's
+# __context__ then keeps until the next raise)
 BODY_KINDS = {
-    'chunked-garbage': ('body', b'zz\r\nxx', {'HTTP_TRANSFER_ENCODING': 'chunked'}, 'BodyParsingError'),
+    'chunked-garbage': ('body', b'zz\r\nxx', {'HTTP_TRANSFER_ENCODING': 'chunked'}, 'BodyParsingError+'),
     'chunked-truncated': ('body', b'5\r\nab', {'HTTP_TRANSFER_ENCODING': 'chunked'}, 'BodyParsingError'),
     'oversize': ('body', b'x' * 1200, {'CONTENT_LENGTH': '1200'}, 'BodySizeError'),
     'oversize-chunked': ('body', b'4b1\r\n' + b'y' * 0x4b1 + b'\r\n0\r\n\r\n', {'HTTP_TRANSFER_ENCODING': 'chunked'},
                          'BodySizeError'),
-    'bad-json': ('json', b'{x', {'CONTENT_LENGTH': '2', 'CONTENT_TYPE': 'application/json'}, 'BodyParsingError'),
+    'bad-json': ('json', b'{x', {'CONTENT_LENGTH': '2', 'CONTENT_TYPE': 'application/json'}, 'BodyParsingError+'),
     'request-error': ('reqerr', b'', {}, 'RequestError'),
     'good-body': ('body', b'hello', {'CONTENT_LENGTH': '5'}, None),
 }
@@ -188,8 +190,7 @@ def gen_hreq(g, rng, rid, kind=None, spec=None):
         req['method'] = 'POST'
     elif kind in ('app-error', 'app-resp'):
         key = rng.choice(['E', 'E2']) if kind == 'app-error' else 'R'
-        # raising the singleton (instead of returning it) grows its traceback: finding (D), reported;
-        # C09 serves the returned variant, the C03 history oracle both (RAISE_SINGLETONS)
+        # raised or returned (d1483c6: `_handle` drops the traceback of a raised response it catches)
         how = rng.choice(['rr', 'ret']) if kind == 'app-error' and RAISE_SINGLETONS[0] else 'ret'
         req['route'] = ('h', [ck()] if rng.random() < .3 else [], (how, ('sh', key)))
         if rng.random() < .3:
@@ -329,7 +330,9 @@ def ser_hreq(h, urlrepr):
         req = dict(req, route=('h', req['route'][1], ('ret', ('t', h['said']))))
     ext = h.get('ext')
     exts = ['-'] if ext is None else [str(len(ext))] + [x for k, v in ext for x in (hs(k), hs(v))]
-    return zoo.ser_req(req, urlrepr) + [h['bodyerr'] or '-'] + exts
+    res = req['route'][2] if req['route'][0] == 'h' else ()
+    sg = str(sorted(SHARED).index(res[1][1])) if len(res) > 1 and res[1][0] == 'sh' else '-'
+    return zoo.ser_req(req, urlrepr) + [h['bodyerr'] or '-', sg] + exts
 
 
 def fixed_app(g, rng):
